@@ -1,10 +1,12 @@
 \* safety: all Dial histories of length <= MaxSteps, 2 concurrent callers, 3 IDs
 CONSTANTS
-  IDs = {"Chrome-120", "Firefox-120", "iOS-14"}
-  None = "-"
+  IDs = {"Chrome-120", "Firefox-120", "Randomized"}
+  RandIDs = {"Randomized"}
+  Seeds = {1, 2, 3, 4, 5, 6}
+  Canon = TRUE
   MaxSteps = 2
   MaxCallers = 2
 INIT Init
 NEXT Next
-INVARIANTS StartsWithWorking AtMostOnce FirstSuccess TcpErrorImmediate Recorded SeqPrefers
+INVARIANTS StartsWithWorking SameSeedAgain WorkingIsConcrete AtMostOnce FirstSuccess TcpErrorImmediate Recorded SeqPrefers
 CHECK_DEADLOCK FALSE
